@@ -740,6 +740,23 @@ func Run(script interface{}, cfg simrt.Config) *world.Outcome {
 		}
 	case simrt.StatusHang:
 		out.Aborted = "director hang: " + simrt.FormatTasks(res.Left)
+		// Nothing is runnable and no timer is pending.  A library goroutine
+		// that is parked on a lock at this point stays there for ever: locks
+		// are released by tasks only, and every task is parked (the harness
+		// holds library locks only inside API calls, which are parked on the
+		// same locks).  That is a deadlock inside the library, not trouble of
+		// the harness.
+		for _, t := range res.Left {
+			if t.Lib && (t.Wait == "mutex" || t.Wait == "rlock" || t.Wait == "wlock") {
+				out.Aborted = ""
+				prop := map[string]string{"will": "C09", "keepalive": "C19", "witness": "C05"}[sc.Profile]
+				if prop == "" {
+					prop = "C16"
+				}
+				out.Add(prop, "no-deadlock", prop+"/deadlock/"+siteOf(t.Name)+"/"+t.Wait, fmt.Sprintf("every goroutine is parked and no timer is pending, and library goroutine %q is parked on a lock (%s): it will never proceed - the broker is deadlocked (connections are no longer served or torn down). Tasks: %s; held locks: %v", t.Name, t.Wait, simrt.FormatTasks(res.Left), res.HeldLocks))
+				return out
+			}
+		}
 	}
 	judge(r, res)
 	return out
